@@ -277,7 +277,8 @@ def run(tier, seed, rng, known, replay):
     known_hits = list(r['known'])
     gv, gn, gs = golden_check()
     violations.extend(gv[:3])
-    for probe in (probe_d16, probe_processes, probe_busy_reopen):
+    from props import surface
+    for probe in (probe_d16, probe_processes, probe_busy_reopen, lambda: '; '.join(surface.sqlite_pragmas()) or None):
         v = probe()
         if v:
             k = base.match_known(known, {'cfg': {}}, None, v)
